@@ -49,7 +49,8 @@ Real vf_bias_double(Real b) __CPROVER_requires(b > 0 && FIN(b)) __CPROVER_assign
    when the bracket is wider than the localisation requirement; narrowestWindow >= minWindow. */
 void findEventCandidates_v(struct IntegratorRep* self, Real tLow, Real tHigh, Real bias, Real minWindow, int viable_n,
                            int* n, Real* earliestTimeEst, Real* narrowestWindow)
-__CPROVER_requires(FEC_ABS_REQUIRES(tLow, tHigh, bias, minWindow))      /* estimateRootTime's assert(tLow < tHigh), assert(bias > 0), assert(minWindow > 0) */
+__CPROVER_requires(FEC_ABS_REQUIRES_BRACKET(tLow, tHigh))      /* estimateRootTime's assert(tLow < tHigh) */
+__CPROVER_requires(FEC_ABS_REQUIRES_PARAMS(bias, minWindow))   /* assert(bias > 0), assert(minWindow > 0) */
 __CPROVER_requires(viable_n == -1 || viable_n > 0)
 __CPROVER_assigns(*n, *earliestTimeEst, *narrowestWindow, ghost_narrowest, ghost_prev_empty, ghost_prev_thigh)
 __CPROVER_ensures(FEC_ABS_NARROWED(*n, viable_n))
